@@ -383,6 +383,20 @@ async def run_connections(st, uni, nconns, schedule, sid_map, rate_limiter=None,
 
     web.asyncio = types.SimpleNamespace(**{k: getattr(real_asyncio, k) for k in dir(real_asyncio) if not k.startswith("__")})
     web.asyncio.sleep = _no_sleep
+    # the storage layer waits for the previous round's notify tasks before it fans an event out (asyncio.wait).  How long
+    # that takes is up to the tasks: here it always takes a few loop turns, so that messages of other connections do get
+    # handled while a fan-out is suspended there
+    from nostr_relay.storage import base as _base
+
+    real_base_asyncio = _base.asyncio
+
+    async def _slow_wait(fs, **kw):
+        for _ in range(3):
+            await real_asyncio.sleep(0)
+        return await real_asyncio.wait(fs, **kw)
+
+    _base.asyncio = types.SimpleNamespace(**{k: getattr(real_asyncio, k) for k in dir(real_asyncio) if not k.startswith("__")})
+    _base.asyncio.wait = _slow_wait
     conns = {}
     main = asyncio.current_task()
     rl = rate_limiter or NullRateLimiter()
@@ -521,6 +535,7 @@ async def run_connections(st, uni, nconns, schedule, sid_map, rate_limiter=None,
     finally:
         rec.uninstall()
         web.asyncio = real_asyncio
+        _base.asyncio = real_base_asyncio
         _util.secrets = real_secrets
     rec.log.append({"a": "LimiterCalls", "calls": rec.limiter_calls}) if rec.limiter_calls else None
     return rec.log, {c: {"result": cn.result, "close_code": cn.closed_code} for c, cn in conns.items()}, rec.errors
